@@ -129,6 +129,7 @@ type Exec struct {
 	mapRanges     int
 	cur           ssa.Instruction
 	modelHits     int
+	shard, shards int
 	regions       map[*ssa.BasicBlock]regionInfo
 	noIfConv      bool
 	ifConverted   int
@@ -399,6 +400,14 @@ func (ex *Exec) recordViolation(st *State, kind, site, fn, msg string, extra ...
 		return
 	}
 	key := kind + "|" + site + "|" + msg
+	if kind == "assert" {
+		// one counterexample per case split of the harness
+		for _, in := range st.inputs {
+			if in.kind == "choice" {
+				key += fmt.Sprintf(",%d", in.n)
+			}
+		}
+	}
 	if ex.vioSeen[key] {
 		return
 	}
